@@ -340,8 +340,18 @@ def run(ctx):
         log("BUILD FAILED (harness detsim):\n" + out[-3000:])
         raise SystemExit(2)
     vlib.regen_consts(GROUP, BINNAME)
-    proofs_ok, info = ctx.check_proofs(make_targets=["Determ/Proofs.vo", "Properties/C07.vo"],
+    proofs_ok, info = ctx.check_proofs(make_targets=["Determ/Proofs.vo", "Determ/ProofsRW.vo", "Properties/C07.vo"],
                                        gate_paths=["Determ", "Properties/C07"])
+    if not quick and proofs_ok:
+        # thorough: the compiled development re-checked by the independent checker
+        with vlib.CoqLock():
+            rc, cout, cdt = sh("coqchk -silent -o -Q . ZV ZV.Properties.C07", cwd=vlib.COQ, timeout=1800)
+        axioms_none = "Axioms: <none>" in cout.replace("\n", " ").replace("  ", " ") or "* Axioms: <none>" in cout
+        ctx.notes.append("coqchk ZV.Properties.C07: rc=%d, %.0fs, %s" % (rc, cdt, "no axioms" if axioms_none else cout[-400:]))
+        if rc != 0:
+            proofs_ok = False
+            ctx.proof["ok"] = False
+            ctx.proof["error"] = "coqchk failed: " + cout[-1500:]
     mok, mout, _ = vlib.model_build(GROUP)
     if not mok:
         log("MODEL BUILD FAILED:\n" + mout[-3000:])
